@@ -56,6 +56,9 @@ def to_py(T, v, in_variant=False, style=0):
         return WRAP[c](x) if in_variant else x
     if c == 'b':
         x = bool(int.from_bytes(bytes(v), 'little'))
+        if not in_variant and style >= 4:
+            # a BOOLEAN is given as any Python value and taken by its truth: the wire word is 1 or 0 all the same
+            return (2 if style == 4 else 256) if x else 0
         return marshal.Boolean(x) if in_variant else x
     if c == 'd':
         return struct.unpack('<d', bytes(v))[0]
